@@ -19,6 +19,7 @@ CONSTANT Check
 
 VARIABLES kind, safe, call, inside, termB, termE, unsB, unsE, tdRan, tdOf, tdSt, tdLate, unsAct, disposed, objTerm, waiting, quiet, gsnap
 VARIABLE l
+VARIABLE srcLive    \* operator-level traces: controllable sources that are subscribed and whose teardown has not run yet (C14)
 
 C == INSTANCE Contract
 
@@ -26,15 +27,16 @@ Trace == ndJsonDeserialize("trace.ndjson")
 
 Starts == {i \in 1..Len(Trace) : Trace[i].e = "hdr"}
 
-vars == <<kind, safe, call, inside, termB, termE, unsB, unsE, tdRan, tdOf, tdSt, tdLate, unsAct, disposed, objTerm, waiting, quiet, gsnap, l>>
+cv == <<kind, safe, call, inside, termB, termE, unsB, unsE, tdRan, tdOf, tdSt, tdLate, unsAct, disposed, objTerm, waiting, quiet, gsnap>>
+vars == <<kind, safe, call, inside, termB, termE, unsB, unsE, tdRan, tdOf, tdSt, tdLate, unsAct, disposed, objTerm, waiting, quiet, gsnap, l, srcLive>>
 
-Init == \E i \in Starts : /\ l = i + 1
+Init == \E i \in Starts : /\ l = i + 1 /\ srcLive = {}
                            /\ C!CInit(Trace[i].s, Trace[i].b)
 
 Ev == Trace[l]
 Is(e) == l <= Len(Trace) /\ Ev.e = e
 
-Step ==
+CStep ==
   \/ Is("callB")  /\ C!CallB(Ev.p, Ev.k, Ev.v, Ev.i)
   \/ Is("callE")  /\ C!CallE(Ev.p)
   \/ Is("drop")   /\ C!Drop(Ev.p)
@@ -51,8 +53,14 @@ Step ==
   \/ Is("waitE")  /\ C!WaitE(Ev.p)
   \/ Is("getB")   /\ C!GetB(Ev.p, Ev.o)
   \/ Is("getE")   /\ C!GetE(Ev.p, Ev.o, Ev.b)
-  \/ Is("quiesce") /\ C!Quiesce
+  \* C14: once every harness thread has been joined, a stream that terminated or was unsubscribed holds no source any more
+  \/ Is("quiesce") /\ C!Quiesce /\ (("C14" \in Check /\ \E o \in O : termE[o] \/ unsE[o]) => srcLive = {})
   \/ Is("end")    /\ C!End /\ PrintT(<<"ACCEPT", Ev.t>>)
+
+Step ==
+  \/ CStep /\ UNCHANGED srcLive
+  \/ Is("srcSub") /\ srcLive' = srcLive \cup {Ev.i} /\ UNCHANGED cv
+  \/ Is("srcTd")  /\ srcLive' = srcLive \ {Ev.i} /\ UNCHANGED cv
 
 Next == Step /\ l' = l + 1
 
